@@ -255,6 +255,10 @@ func (v *Vector[T]) UnmarshalBinary(p []byte) (err error) {
 // If T is a struct, this method requires that T implements Equatable.
 func (v Vector[T]) Equal(other Vector[T]) (isEqual bool) {
 
+	if len(v) != len(other) {
+		return false
+	}
+
 	var t T
 	switch any(t).(type) {
 	case uint, uint64, int, int64, float64:
